@@ -341,6 +341,7 @@ where
                             cases: quota as u32,
                             failure_persistence: None,
                             max_shrink_iters: 4096,
+                            max_shrink_time: 90_000,
                             max_global_rejects: 1 << 20,
                             max_local_rejects: 1 << 20,
                             rng_algorithm: RngAlgorithm::ChaCha,
